@@ -102,6 +102,11 @@ class FluentWorklist(BaseWorklist):
             raise ValueError(f"Number of source/destination/volumes must be equal. They were {lengths}")
         if np.any(volumes < 0):
             raise ValueError("Volumes must be positive or zero.")
+        # wells that do not exist are refused before anything is recorded
+        for labware, wells in ((source, source_wells), (destination, destination_wells)):
+            for well in wells:
+                if well not in labware.indices:
+                    raise KeyError(well)
 
         # automatic partitioning
         partition_by = optimize_partition_by(source, destination, partition_by, label)
